@@ -58,6 +58,41 @@ func (t ttlChoice) yaml(indent string) string {
 	return indent + "cache_ttl: " + durYAML(t.d) + "\n"
 }
 
+// ttlPair is a catalogue-level ttl plus an optional rule-level override; the rule observes the override when one is given.
+type ttlPair struct {
+	proto, rule ttlChoice
+}
+
+func drawTTLPair(s *simcore.Source, label string) ttlPair {
+	p := ttlPair{proto: drawTTL(s, label)}
+	if s.Draw(3, label+"-override?") == 2 {
+		p.rule = drawTTL(s, label+"-override")
+	}
+	return p
+}
+
+func (p ttlPair) effective() ttlChoice {
+	if p.rule.set {
+		return p.rule
+	}
+	return p.proto
+}
+
+// stepConfig renders the rule-level `config:` of a pipeline step (empty when there is no override).
+func (p ttlPair) stepConfig(key string) string {
+	if !p.rule.set {
+		return ""
+	}
+	return fmt.Sprintf("\n      config:\n        %s: %s", key, durYAML(p.rule.d))
+}
+
+func (p ttlPair) String() string {
+	if p.rule.set {
+		return p.proto.String() + "->" + p.rule.String()
+	}
+	return p.proto.String()
+}
+
 func (t ttlChoice) String() string {
 	if !t.set {
 		return "unset"
@@ -109,7 +144,8 @@ rules:
 func c10AuthnScenario(r *simcore.Run, kind string) {
 	s := r.Src
 	cacheKind := simcore.Pick(s, cacheKinds, "cache-kind")
-	ttl := drawTTL(s, "cache-ttl")
+	ttls := drawTTLPair(s, "cache-ttl")
+	ttl := ttls.effective()
 	leeway := []time.Duration{secs(5), secs(30), secs(120)}[s.Draw(3, "leeway")]
 	// credential lifetime relative to the first request (t=0.5s): absent / far / near / inside leeway already
 	var expAt int // seconds from epoch; 0 = no expiry information
@@ -144,7 +180,7 @@ mechanisms:
       config:
         headers:
           X-User: "{{ .Subject.ID }}"
-`, durYAML(leeway), ttl.yaml("        "))
+`, durYAML(leeway), ttls.proto.yaml("        "))
 	} else {
 		mech = fmt.Sprintf(`
 mechanisms:
@@ -172,10 +208,10 @@ mechanisms:
       config:
         headers:
           X-User: "{{ .Subject.ID }}"
-`, durYAML(leeway), ttl.yaml("        "))
+`, durYAML(leeway), ttls.proto.yaml("        "))
 	}
-	rules := fmt.Sprintf(c10Rules, "    - authenticator: authn\n    - finalizer: echo")
-	r.Logf("scenario=%s cache=%s cache_ttl=%s leeway=%s exp=%d", kind, cacheKind, ttl, leeway, expAt)
+	rules := fmt.Sprintf(c10Rules, "    - authenticator: authn"+ttls.stepConfig("cache_ttl")+"\n    - finalizer: echo")
+	r.Logf("scenario=%s cache=%s cache_ttl=%s leeway=%s exp=%d", kind, cacheKind, ttls, leeway, expAt)
 	e, err := newEnv(r, cacheKind, mech, rules)
 	if err != nil {
 		r.Fail("infra", "build", "%v", err)
@@ -245,7 +281,7 @@ mechanisms:
 			break
 		}
 	}
-	c10Finish(r, e, kind, cacheKind, ttl.String(), fmt.Sprint(expAt != 0), boundaryHit)
+	c10Finish(r, e, kind, cacheKind, ttls.String(), fmt.Sprint(expAt != 0), boundaryHit)
 }
 
 // --- scenario: remote authorizer / generic contextualizer with cache_ttl and RFC 7234 caching of the endpoint ------
@@ -324,7 +360,8 @@ func (f httpFreshness) String() string {
 func c10RemoteScenario(r *simcore.Run, kind string) {
 	s := r.Src
 	cacheKind := simcore.Pick(s, cacheKinds, "cache-kind")
-	ttl := drawTTL(s, "cache-ttl")
+	ttls := drawTTLPair(s, "cache-ttl")
+	ttl := ttls.effective()
 	httpCache := s.Draw(2, "http-cache") == 1
 	defaultTTL := []time.Duration{0, secs(30), secs(300)}[s.Draw(3, "default-ttl")]
 	fresh := drawFreshness(s)
@@ -353,8 +390,8 @@ mechanisms:
       config:
         headers:
           X-User: "{{ .Subject.ID }}"
-`, hc, ttl.yaml("        "))
-		step = "    - authenticator: anon\n    - authorizer: remote\n    - finalizer: echo"
+`, hc, ttls.proto.yaml("        "))
+		step = "    - authenticator: anon\n    - authorizer: remote" + ttls.stepConfig("cache_ttl") + "\n    - finalizer: echo"
 	} else {
 		mech = fmt.Sprintf(`
 mechanisms:
@@ -374,10 +411,10 @@ mechanisms:
       config:
         headers:
           X-User: "{{ .Subject.ID }}"
-`, hc, ttl.yaml("        "))
-		step = "    - authenticator: anon\n    - contextualizer: remote\n    - finalizer: echo"
+`, hc, ttls.proto.yaml("        "))
+		step = "    - authenticator: anon\n    - contextualizer: remote" + ttls.stepConfig("cache_ttl") + "\n    - finalizer: echo"
 	}
-	r.Logf("scenario=%s cache=%s cache_ttl=%s http_cache=%v default_ttl=%s %v", kind, cacheKind, ttl, httpCache, defaultTTL, fresh)
+	r.Logf("scenario=%s cache=%s cache_ttl=%s http_cache=%v default_ttl=%s %v", kind, cacheKind, ttls, httpCache, defaultTTL, fresh)
 	e, err := newEnv(r, cacheKind, mech, fmt.Sprintf(c10Rules, step))
 	if err != nil {
 		r.Fail("infra", "build", "%v", err)
@@ -474,7 +511,7 @@ mechanisms:
 			break
 		}
 	}
-	c10Finish(r, e, kind, cacheKind, ttl.String(), fmt.Sprintf("http=%v/%v", httpCache, fresh.explicit), boundaryHit)
+	c10Finish(r, e, kind, cacheKind, ttls.String(), fmt.Sprintf("http=%v/%v", httpCache, fresh.explicit), boundaryHit)
 }
 
 
@@ -484,8 +521,10 @@ func c10JWKSScenario(r *simcore.Run) {
 	s := r.Src
 	kind := "jwks-cert"
 	cacheKind := simcore.Pick(s, cacheKinds, "cache-kind")
-	ttl := drawTTL(s, "cache-ttl")
+	ttls := drawTTLPair(s, "cache-ttl")
+	ttl := ttls.effective()
 	withCert := s.Draw(4, "with-cert") != 0
+	withChain := withCert && s.Draw(2, "x5c-chain") == 1 // leaf + a longer-lived intermediate in x5c
 	var notAfterS int // seconds from epoch
 	switch s.Draw(4, "cert-class") {
 	case 0:
@@ -511,8 +550,15 @@ func c10JWKSScenario(r *simcore.Run) {
 	key := fixtureKey(keyName)
 	jwk := jose.JSONWebKey{Key: key.Public(), KeyID: "k1", Algorithm: string(algFor(key)), Use: "sig"}
 	if withCert {
-		leaf, _ := mintLeaf(ca, caKey, key, epoch.Add(secs(notAfterS)), 2)
-		jwk.Certificates = []*x509.Certificate{leaf}
+		if withChain {
+			imKey := fixtureKey("ec384")
+			im, _ := mintIntermediate(ca, caKey, imKey, epoch.Add(40*time.Hour), 3)
+			leaf, _ := mintLeaf(im, imKey, key, epoch.Add(secs(notAfterS)), 2)
+			jwk.Certificates = []*x509.Certificate{leaf, im}
+		} else {
+			leaf, _ := mintLeaf(ca, caKey, key, epoch.Add(secs(notAfterS)), 2)
+			jwk.Certificates = []*x509.Certificate{leaf}
+		}
 	}
 	mech := fmt.Sprintf(`
 mechanisms:
@@ -532,9 +578,9 @@ mechanisms:
       config:
         headers:
           X-User: "{{ .Subject.ID }}"
-`, filepath.Join(dir, "ca.pem"), ttl.yaml("        "))
-	rules := fmt.Sprintf(c10Rules, "    - authenticator: authn\n    - finalizer: echo")
-	r.Logf("scenario=%s cache=%s cache_ttl=%s key=%s cert=%v notAfter=+%ds", kind, cacheKind, ttl, keyName, withCert, notAfterS)
+`, filepath.Join(dir, "ca.pem"), ttls.proto.yaml("        "))
+	rules := fmt.Sprintf(c10Rules, "    - authenticator: authn"+ttls.stepConfig("cache_ttl")+"\n    - finalizer: echo")
+	r.Logf("scenario=%s cache=%s cache_ttl=%s key=%s cert=%v chain=%v notAfter=+%ds", kind, cacheKind, ttls, keyName, withCert, withChain, notAfterS)
 	e, err := newEnv(r, cacheKind, mech, rules)
 	if err != nil {
 		r.Fail("infra", "build", "%v", err)
@@ -598,7 +644,7 @@ mechanisms:
 			break
 		}
 	}
-	c10Finish(r, e, kind, cacheKind, ttl.String(), fmt.Sprintf("cert=%v/%s", withCert, keyName), boundaryHit)
+	c10Finish(r, e, kind, cacheKind, ttls.String(), fmt.Sprintf("cert=%v/%v/%s", withCert, withChain, keyName), boundaryHit)
 }
 
 // --- scenario: finalizers handing out tokens --------------------------------------------------------------------------
@@ -607,7 +653,14 @@ func c10JWTFinalizerScenario(r *simcore.Run) {
 	s := r.Src
 	kind := "jwt-finalizer"
 	cacheKind := simcore.Pick(s, cacheKinds, "cache-kind")
-	ttlS := []int{2, 4, 6, 9, 30, 300}[s.Draw(6, "jwt-ttl")]
+	ttlChoices := []int{2, 4, 6, 9, 30, 300}
+	protoTTL := ttlChoices[s.Draw(6, "jwt-ttl")]
+	ttlS := protoTTL
+	stepCfg := ""
+	if s.Draw(3, "jwt-ttl-override?") == 2 {
+		ttlS = ttlChoices[s.Draw(6, "jwt-ttl-override")]
+		stepCfg = fmt.Sprintf("\n      config:\n        ttl: %ds", ttlS)
+	}
 	keyName := simcore.Pick(s, []string{"ec256", "ec384", "rsa2048"}, "key")
 	mech := fmt.Sprintf(`
 mechanisms:
@@ -623,9 +676,9 @@ mechanisms:
           key_store:
             path: %s
         ttl: %ds
-`, fixturePath(keyName), ttlS)
-	rules := fmt.Sprintf(c10Rules, "    - authenticator: anon\n    - finalizer: jwt")
-	r.Logf("scenario=%s cache=%s ttl=%ds key=%s", kind, cacheKind, ttlS, keyName)
+`, fixturePath(keyName), protoTTL)
+	rules := fmt.Sprintf(c10Rules, "    - authenticator: anon\n    - finalizer: jwt"+stepCfg)
+	r.Logf("scenario=%s cache=%s ttl=%ds (catalogue %ds) key=%s", kind, cacheKind, ttlS, protoTTL, keyName)
 	e, err := newEnv(r, cacheKind, mech, rules)
 	if err != nil {
 		r.Fail("infra", "build", "%v", err)
@@ -666,14 +719,15 @@ mechanisms:
 			break
 		}
 	}
-	c10Finish(r, e, kind, cacheKind, fmt.Sprint(ttlS), keyName, boundaryHit)
+	c10Finish(r, e, kind, cacheKind, fmt.Sprintf("%d->%d", protoTTL, ttlS), keyName, boundaryHit)
 }
 
 func c10ClientCredentialsScenario(r *simcore.Run) {
 	s := r.Src
 	kind := "client-credentials"
 	cacheKind := simcore.Pick(s, cacheKinds, "cache-kind")
-	ttl := drawTTL(s, "cache-ttl")
+	ttls := drawTTLPair(s, "cache-ttl")
+	ttl := ttls.effective()
 	var expiresIn int // 0 = absent
 	switch s.Draw(4, "expires-in-class") {
 	case 0:
@@ -697,9 +751,9 @@ mechanisms:
         token_url: http://sts/token
         client_id: heimdall
         client_secret: secret
-%s`, ttl.yaml("        "))
-	rules := fmt.Sprintf(c10Rules, "    - authenticator: anon\n    - finalizer: cc")
-	r.Logf("scenario=%s cache=%s cache_ttl=%s expires_in=%d", kind, cacheKind, ttl, expiresIn)
+%s`, ttls.proto.yaml("        "))
+	rules := fmt.Sprintf(c10Rules, "    - authenticator: anon\n    - finalizer: cc"+ttls.stepConfig("cache_ttl"))
+	r.Logf("scenario=%s cache=%s cache_ttl=%s expires_in=%d", kind, cacheKind, ttls, expiresIn)
 	e, err := newEnv(r, cacheKind, mech, rules)
 	if err != nil {
 		r.Fail("infra", "build", "%v", err)
@@ -770,7 +824,7 @@ mechanisms:
 			break
 		}
 	}
-	c10Finish(r, e, kind, cacheKind, ttl.String(), fmt.Sprint(expiresIn), boundaryHit)
+	c10Finish(r, e, kind, cacheKind, ttls.String(), fmt.Sprint(expiresIn), boundaryHit)
 }
 
 func c10Why(ttl ttlChoice, httpCache bool, f httpFreshness) string {
